@@ -28,6 +28,16 @@ def build_gen(spec, clock, counters):
         return -build_gen(spec['a'], clock, counters)
     if g == 'bounded':
         return ng.BoundedNumber(generator=build_gen(spec['a'], clock, counters), bounds=tuple(spec['bounds']))
+    if g == 'flaky':
+        calls = [0]
+        fails = set(spec.get('fail', []))
+
+        def flaky():
+            calls[0] += 1
+            if calls[0] in fails:
+                raise RuntimeError('injected generator failure')
+            return float(clock()) * 3
+        return flaky
     if g == 'counter':
         box = [0]
         counters.append(box)
@@ -43,7 +53,7 @@ def gen_spec(rng, depth=0):
     k = weighted(rng, [('UniformRandom', 4), ('NormalRandom', 2), ('UniformRandomInt', 2), ('Choice', 2), ('UniformRandomOffset', 1),
                        ('ScaledTime', 2), ('SquareWave', 1.5), ('ExponentialDecay', 1), ('BoxCar', 1),
                        ('add', 1.5 if depth < 2 else 0), ('mul', 1 if depth < 2 else 0), ('neg', 1 if depth < 2 else 0),
-                       ('bounded', 1 if depth < 2 else 0), ('counter', 1.2 if depth == 0 else 0)])
+                       ('bounded', 1 if depth < 2 else 0), ('counter', 1.2 if depth == 0 else 0), ('flaky', 1.2 if depth == 0 else 0)])
     name, seed = rng.choice(['n1', 'n2', 'n3']), rng.choice([0, 1, 7])
     if k == 'UniformRandom':
         return {'g': k, 'name': name, 'seed': seed, 'args': {'lbound': 0.0, 'ubound': rng.choice([1.0, 10.0])}}
@@ -71,6 +81,8 @@ def gen_spec(rng, depth=0):
         return {'g': 'neg', 'a': gen_spec(rng, depth + 1)}
     if k == 'bounded':
         return {'g': 'bounded', 'a': gen_spec(rng, depth + 1), 'bounds': [0.2, 5.0]}
+    if k == 'flaky':
+        return {'g': 'flaky', 'fail': sorted(rng.sample(range(2, 9), rng.randint(1, 3)))}
     return {'g': 'counter'}
 
 
@@ -117,7 +129,7 @@ class TimeWorld:
         for _ in range(n_ops):
             k = weighted(rng, [('jump', 6), ('adv', 3), ('read', 8), ('read2', 2), ('inspect', 2), ('force', 1), ('enter', 2 if depth < 3 else 0),
                                ('exit', 2.5 if depth else 0), ('step', 1), ('until', 1 if depth else 0.2), ('next', 1 if depth else 0.2),
-                               ('push', 1.5), ('pop', 1.5), ('swap', 0.7)])
+                               ('push', 1.5), ('pop', 1.5), ('swap', 0.7), ('pp2', 1.0)])
             op = {'op': k}
             if k == 'jump':
                 op['t'] = rng.choice(times)
@@ -130,8 +142,10 @@ class TimeWorld:
             if k in ('read', 'read2', 'inspect', 'force', 'swap'):
                 op['i'] = rng.randrange(cfg['n_inst'])
                 op['p'] = rng.randrange(cfg['n_params'])
-            if k in ('push', 'pop'):
+            if k in ('push', 'pop', 'pp2'):
                 op['i'] = rng.randrange(cfg['n_inst'])
+            if k == 'pp2':
+                op['t1'], op['t2'], op['t3'] = rng.sample([1, 2, 3, 4, 5, 6], 3)
             if k == 'swap':
                 op['spec'] = rng.choice(pool) if rng.random() < 0.5 else gen_spec(rng)
             if k == 'enter':
@@ -217,6 +231,8 @@ class TimeWorld:
                 out.violations.append((clause, step, detail))
 
         def expected_pure(spec, t):
+            if spec['g'] == 'flaky':
+                return float(t) * 3
             key = (json.dumps(spec, sort_keys=True), str(t))
             if key not in table:
                 sk = key[0]
@@ -239,7 +255,14 @@ class TimeWorld:
         def do_read(step, i, n, label):
             m = M[(i, n)]
             t = clock()
-            v = getattr(insts[i], n)
+            try:
+                v = getattr(insts[i], n)
+            except RuntimeError:
+                if m['spec']['g'] != 'flaky':
+                    raise
+                # the generator failed at this read: no value was produced for this time, the next read must produce it
+                out.stats['fault.generator_raised_during_read'] += 1
+                return None
             hit = (m['time'] is not None and m['time'] == t)
             if pure(m['spec']):
                 exp = expected_pure(m['spec'], t)
@@ -298,7 +321,7 @@ class TimeWorld:
                 elif k == 'read2':
                     a = do_read(step, i, n, 'read')
                     b = do_read(step, i, n, 'second read')
-                    if not same(a, b):
+                    if a is not None and b is not None and not same(a, b):
                         viol('C19.same_time_same_value', f"two reads of I{i}.{n} at t={clock()} returned {a!r} then {b!r}", step)
                 elif k == 'inspect':
                     m = M[(i, n)]
@@ -311,7 +334,13 @@ class TimeWorld:
                 elif k == 'force':
                     m = M[(i, n)]
                     t = clock()
-                    v = insts[i].param.force_new_dynamic_value(n)
+                    try:
+                        v = insts[i].param.force_new_dynamic_value(n)
+                    except RuntimeError:
+                        if m['spec']['g'] != 'flaky':
+                            raise
+                        out.stats['fault.generator_raised_during_read'] += 1
+                        continue
                     if pure(m['spec']):
                         exp = expected_pure(m['spec'], t)
                         if not same(v, exp):
@@ -382,6 +411,31 @@ class TimeWorld:
                             if m['time'] is not None and not same(v, m['val']):
                                 viol('C19.push_pop', f"after state pop I{i}.{n2} holds {v!r}, it held {m['val']!r} at push", step)
                         out.stats['probe.pop_restored_cache'] += 1
+                elif k == 'pp2':
+                    # read at t1, push, read at t2, push, read at t3, pop, pop, then read at t2 and t1 again
+                    def at(tv):
+                        clock(T(tv))
+                        cm['t'] = T(tv)
+                        visited.append(cm['t'])
+                        for n2 in names:
+                            do_read(step, i, n2, f"nested push/pop probe read at {tv} of")
+                    at(op['t1'])
+                    insts[i].param._state_push()
+                    for n2 in names:
+                        M[(i, n2)]['stack'].append((M[(i, n2)]['val'], M[(i, n2)]['time']))
+                    at(op['t2'])
+                    insts[i].param._state_push()
+                    for n2 in names:
+                        M[(i, n2)]['stack'].append((M[(i, n2)]['val'], M[(i, n2)]['time']))
+                    at(op['t3'])
+                    for _ in range(2):
+                        insts[i].param._state_pop()
+                        for n2 in names:
+                            M[(i, n2)]['val'], M[(i, n2)]['time'] = M[(i, n2)]['stack'].pop()
+                    out.stats['probe.nested_push_pop'] += 1
+                    at(op['t2'])
+                    at(op['t1'])
+                    revisit = True
                 elif k == 'swap':
                     # a generator's pushed states live on the generator itself: only swap when nothing is pushed
                     if not M[(i, names[0])]['stack']:
